@@ -43,7 +43,7 @@ theorem stepInstr_weight (cfg : Cfg) (sh : Shared) (pooled : Bool) (i : Instr) (
   | exec st =>
     have h1 := csum_weight_handler st
     have h2 := Stage.weight_eq st
-    simp only [stepInstr]; split <;> (try cases pooled) <;> simp [Instr.weight] <;> omega
+    simp only [stepInstr]; (repeat' split) <;> simp [Instr.weight] <;> omega
   | _ => simp only [stepInstr] <;> (repeat' split) <;> simp [Instr.weight] <;> omega
 
 /-- the measure of a state -/
